@@ -322,6 +322,26 @@ Proof.
 Qed.
 Print Assumptions C01_no_history_panics_or_hangs_with_the_modelled_engines.
 
+(* ... and with every phonetic layout as the syllable editor (Model/Layout.v: Standard, Hsu, IBM, Gin-Yieh, ET, ET26,
+   DaChen26, Hanyu / THL / MPS2 Pinyin - the models of C14), switched at any moment by OpLayout
+   (chewing_set_KBType while text is being composed or a list is open): the instance the correspondence runs *)
+Theorem C01_no_history_panics_or_hangs_all_layouts_modelled_engines : forall ss d L ab t0 ops,
+  ss_good ss -> ss_cursor ss = None -> md_fine d -> Forall op_fine ops ->
+  fine (run md_ops lay_ops m_conv (ml_init d L ab ss t0) ops).
+Proof.
+  intros ss d L ab t0 ops Hg Hf Hd Hops. unfold ml_init.
+  apply (C01_no_history_from_a_fresh_editor_panics_or_hangs md_ops lay_ops m_conv md_fine); try assumption.
+  - intros d0 f H. apply md_ok_lookup. now apply md_fine_ok.
+  - exact md_fine_add.
+  - exact md_fine_update.
+  - exact md_fine_remove.
+  - intros [L0 st0] c. reflexivity.
+  - intros d0 f k p. apply md_fine_text.
+  - intros d0 f k p. apply md_fine_freq.
+  - exact m_conv_tiles.
+Qed.
+Print Assumptions C01_no_history_panics_or_hangs_all_layouts_modelled_engines.
+
 (* the premises hold somewhere non-trivial: a dictionary with a system and a user phrase, the conversion
    that gives every symbol its own interval, a history that types, opens the list, pages and commits *)
 Example C01_instance_premises_hold :
